@@ -216,6 +216,10 @@ def step (s : St) (line : String) : St × String :=
     let (n, a) := InfluxVerif.Auth.authBegin verifyTok s.node (nm u) pw
     let n' := if a = .verified then InfluxVerif.Auth.authFinish n else n
     ({ s with node := n' }, if a = .rejected then "rejected" else "accepted")
+  | ["raw", _, _, "bad"] =>
+    -- the command's own extension field is there but its payload does not decode (a length
+    -- that runs past the end): the body must be refused, whatever the type
+    (s, "rejected")
   | ["raw", t, e] =>
     match t.toNat?, e.toNat? with
     | some t, some e =>
